@@ -170,7 +170,7 @@ def gen_call_macro(r: random.Random):
 def gen_block_body(r: random.Random, indent="    "):
     lines = []
     n = r.randint(1, 5)
-    pool = ["x = 1", "not python at all $$", "if y:", "print('a')", "# comment", "", "'what the block does'", '"a doc line" ; k = 0', "b'raw'", "ls -la | grep z", "'''multi", "'''multi3", "f'''multi", "def f():", "a = (1,", "return [", "pass", "  odd indent", "\tTabbed", "x = 'str' ; y"]
+    pool = ["x = 1", "not python at all $$", "if y:", "print('a')", "# comment", "", "'what the block does'", '"a doc line" ; k = 0', "b'raw'", "x = 'a\tb'", "y = 1\t# aligned comment", "z\t=\t2", "ls -la | grep z", "'''multi", "'''multi3", "f'''multi", "def f():", "a = (1,", "return [", "pass", "  odd indent", "\tTabbed", "x = 'str' ; y"]
     level = 0
     for _ in range(n):
         t = r.choice(pool)
